@@ -189,6 +189,24 @@ func m_AddCert(p *x509.CertPool, c *x509.Certificate) {
 	g.certs = append(g.certs, c)
 }
 
+// Equal reports whether two pools hold the same certificates.
+//
+//vp:model (*crypto/x509.CertPool).Equal
+func m_PoolEqual(p, other *x509.CertPool) bool {
+	if p == nil || other == nil {
+		return p == other
+	}
+	a, b := poolCerts(p), poolCerts(other)
+	if len(a) != len(b) {
+		return false
+	}
+	eq := true
+	for i := range a {
+		eq = vp.And(eq, certID(a[i]) == certID(b[i]))
+	}
+	return eq
+}
+
 type bundleGhost struct {
 	certs []*x509.Certificate
 }
